@@ -20,6 +20,8 @@ BOUNDS_FAMILIES = {
     "wide": [(-32768, 32767), (0, 1000), (-5, 3), (0, 32767), (-32768, 0)],
     "degenerate": [(0, 0), (1, 1), (2, 2), (0, 1), (-1, -1)],
     "medium": [(0, 65), (0, 100), (-70, 70), (0, 200), (-130, 5), (0, 300), (1, 129)],
+    # beyond the library's default 16-bit range (legal: bounds are free): coefficients past 2**31
+    "huge": [(0, 2 ** 33), (-2 ** 33, 2 ** 33), (0, 2 ** 40), (-2 ** 31 - 5, 7), (0, 1)],
 }
 FAULT_KINDS = ["abort-arg", "abort-callback", "solver-raise", "solver-none", "solver-lazy", "solver-status",
                "solver-vectype", "defer", "abandon"]
@@ -369,6 +371,17 @@ class Gen:
                 self.order.remove(h)
         raise RuntimeError("could not generate a well-defined model")
 
+    def recipe_of(self, h, depth=0):
+        """construction recipe behind a handle (through restores / b64 round trips), if known"""
+        H = self.handles.get(h)
+        if H is None or depth > 10:
+            return None
+        if H.get("recipe") is not None:
+            return H["recipe"]
+        if H.get("src") is not None:
+            return self.recipe_of(H["src"], depth + 1)
+        return None
+
     def twin(self, h):
         """a near-twin: differs from h only in what __eq__/__hash__ ignore (DESIGN §2.3)"""
         rng = self.rng
@@ -658,6 +671,16 @@ class Gen:
                 rec = ["Any", [self.leaf(rng.choice(leaves))], rng.choice(sorted(H["info"]["comps"]))]
             elif r < 0.25:
                 rec = self.leaf(rng.choice(leaves))
+            elif r < 0.40 and self.recipe_of(h) is not None:
+                # a rule that contains a *copy* of a sub-proposition the configurator already has (identical
+                # definition, distinct object): legal sharing; equal nodes must de-duplicate
+                subs = [n for n in R.walk(self.recipe_of(h)) if n[0] in R.LIST_CHILD_POS and n[0] != "Stingy"
+                        and not R.refs(n)]
+                if subs:
+                    sub = copy.deepcopy(rng.choice(subs))
+                    rec = [rng.choice(["All", "Any"]), [sub, self.leaf(rng.choice(leaves))], self.idspec(used)]
+                else:
+                    rec = self.compound(1, used, kinds=["All", "Any"], leaves=leaves)
             else:
                 rec = self.compound(1 if rng.random() < 0.7 else 2, used,
                                     kinds=["All", "Any", "AtMost", "AtLeast", "Xor", "ccAny", "ccXor", "Imply"], leaves=leaves)
